@@ -76,7 +76,7 @@ def gsum (g : σ → Nat → Nat) : List σ → List (List Nat) → Nat → Nat
 
 /-- what `refill` does to the score slots with one child -/
 theorem drain_scores (hC : Lawful C VC WC) (hscore : ∀ {c l}, VC c l → VC (C.score c).2 l)
-    (hG : Inter.Ghost C g) (hg : ∀ c, (C.score c).1 = g c (C.doc c)) {H m : Nat} :
+    (hG : Inter.Ghost C g) (hg : ∀ {c l}, VC c l → l ≠ [] → (C.score c).1 = g c (C.doc c)) {H m : Nat} :
     ∀ (fuel : Nat) {c : σ} {li w : List Nat} {sc : Array Nat}, VC c li → li ≠ [] → (∀ x ∈ li, m ≤ x) →
       (li.takeWhile (· < m + H)).length + 1 ≤ fuel → sc.size = H →
       (drain C H m true fuel c w sc).2.2.size = H
@@ -105,7 +105,7 @@ theorem drain_scores (hC : Lawful C VC WC) (hscore : ∀ {c l}, VC c l → VC (C
       have hs2 := hC.sorted hV2
       have hd2 := hC.doc_eq hV2
       have hg2 : g (C.advance (C.score c).2) = g c := by rw [hG.advance, hG.score]
-      have hsc1 : (C.score c).1 = g c a := by rw [hg c, hd]
+      have hsc1 : (C.score c).1 = g c a := by rw [hg hV (List.cons_ne_nil _ _), hd]
       have hsz' : (sc.modify (a - m) (· + (C.score c).1)).size = H := by simp [hsz]
       have hget : ∀ δ, (sc.modify (a - m) (· + (C.score c).1)).getD δ 0
           = sc.getD δ 0 + (if m + δ = a then g c a else 0) := by
@@ -206,7 +206,7 @@ theorem clearScores_getD (sc : Array Nat) (lo hi j : Nat) :
 
 /-- what `refill`'s pass over all children does to the score slots, and to the remaining children -/
 theorem refillAll_scores (hC : Lawful C VC WC) (hscore : ∀ {c l}, VC c l → VC (C.score c).2 l)
-    (hG : Inter.Ghost C g) (hg : ∀ c, (C.score c).1 = g c (C.doc c)) {H m : Nat} :
+    (hG : Inter.Ghost C g) (hg : ∀ {c l}, VC c l → l ≠ [] → (C.score c).1 = g c (C.doc c)) {H m : Nat} :
     ∀ {cs : List σ} {ls : List (List Nat)}, All2 VC cs ls →
       (∀ li ∈ ls, li ≠ [] ∧ ∀ x ∈ li, m ≤ x) →
       ∀ {w : List Nat} {sc : Array Nat}, w.Pairwise (· < ·) → sc.size = H →
@@ -376,7 +376,7 @@ theorem pop_SI {G : Nat → Nat} {H : Nat} (hH : 64 ∣ H) (hH0 : 0 < H) {s : St
 
 /-- `refill` on an empty window (all slots zero) followed by `advance_buffered` -/
 theorem refill_pop_scores (hC : Lawful C VC WC) (hscore : ∀ {c l}, VC c l → VC (C.score c).2 l)
-    (hG : Inter.Ghost C g) (hg : ∀ c, (C.score c).1 = g c (C.doc c)) {G : Nat → Nat}
+    (hG : Inter.Ghost C g) (hg : ∀ {c l}, VC c l → l ≠ [] → (C.score c).1 = g c (C.doc c)) {G : Nat → Nat}
     {H : Nat} (hH : 64 ∣ H) (hH0 : 0 < H) {s' : State σ} {ls : List (List Nat)} {U : List Nat}
     (e2 : s'.window = []) (h2 : All2 VC s'.docsets ls) (hne : ∀ li ∈ ls, li ≠ [])
     (hU : SimpleUnion.IsUnion U ls) (hS : SI0 g G VC H s') :
@@ -466,7 +466,7 @@ theorem SI0.congr {G : Nat → Nat} {H : Nat} {s s1 : State σ} (hS : SI0 g G VC
 
 /-- `advance` keeps the score invariant -/
 theorem advance_SI (hC : Lawful C VC WC) (hscore : ∀ {c l}, VC c l → VC (C.score c).2 l)
-    (hG : Inter.Ghost C g) (hg : ∀ c, (C.score c).1 = g c (C.doc c)) {G : Nat → Nat}
+    (hG : Inter.Ghost C g) (hg : ∀ {c l}, VC c l → l ≠ [] → (C.score c).1 = g c (C.doc c)) {G : Nat → Nat}
     {H : Nat} (hH : 64 ∣ H) (hH0 : 0 < H) {s : State σ} {l : List Nat} (hV : V VC H s l)
     (hS : SI0 g G VC H s) : SI g G VC H (advance C H s) := by
   obtain ⟨ls, U, h2, hne, hU, hwp, hwb, hUh, hsl, hcase⟩ := hV
@@ -497,7 +497,7 @@ def VS (g : σ → Nat → Nat) (G : Nat → Nat) (VC : σ → List Nat → Prop
     (l : List Nat) : Prop := V VC H s l ∧ SI g G VC H s
 
 theorem coreVS (hC : Lawful C VC WC) (hscore : ∀ {c l}, VC c l → VC (C.score c).2 l)
-    (hG : Inter.Ghost C g) (hg : ∀ c, (C.score c).1 = g c (C.doc c)) (G : Nat → Nat)
+    (hG : Inter.Ghost C g) (hg : ∀ {c l}, VC c l → l ≠ [] → (C.score c).1 = g c (C.doc c)) (G : Nat → Nat)
     {H : Nat} (hH : 64 ∣ H) (hH0 : 0 < H) :
     Core0 (fun s : State σ => s.doc) (advance C H) (VS g G VC H) where
   sorted := fun h => (core0 hC hscore hH hH0).sorted h.1
@@ -618,7 +618,7 @@ theorem gsum_seek (hC : Lawful C VC WC) (hG : Inter.Ghost C g) {t : Nat} : ∀ {
 /-- `seek` keeps the score invariant: the buffered branch clears exactly the slots of the buckets it
 drops, the far branch clears all -/
 theorem seek_SI (hC : Lawful C VC WC) (hscore : ∀ {c l}, VC c l → VC (C.score c).2 l)
-    (hG : Inter.Ghost C g) (hg : ∀ c, (C.score c).1 = g c (C.doc c)) {G : Nat → Nat}
+    (hG : Inter.Ghost C g) (hg : ∀ {c l}, VC c l → l ≠ [] → (C.score c).1 = g c (C.doc c)) {G : Nat → Nat}
     {H : Nat} (hH : 64 ∣ H) (hH0 : 0 < H) (fx : Fix) {s : State σ} {l : List Nat} {t : Nat}
     (hV : V VC H s l) (hS : SI g G VC H s) (hd : s.doc ≤ t) (ht : t ≤ TERMINATED) :
     SI g G VC H (seek fx C H t s) := by
@@ -719,7 +719,7 @@ theorem seek_SI (hC : Lawful C VC WC) (hscore : ∀ {c l}, VC c l → VC (C.scor
 /-- `BufferedUnionScorer::build` (SumCombiner) establishes the score invariant for the total score
 function of its children -/
 theorem build_SI (hC : Lawful C VC WC) (hscore : ∀ {c l}, VC c l → VC (C.score c).2 l)
-    (hG : Inter.Ghost C g) (hg : ∀ c, (C.score c).1 = g c (C.doc c))
+    (hG : Inter.Ghost C g) (hg : ∀ {c l}, VC c l → l ≠ [] → (C.score c).1 = g c (C.doc c))
     {H : Nat} (hH : 64 ∣ H) (hH0 : 0 < H) {cs : List σ} {ls : List (List Nat)} {U : List Nat}
     (h : All2 VC cs ls) (hU : SimpleUnion.IsUnion U ls) :
     SI g (gsum g cs ls) VC H (build C H true cs) := by
@@ -774,7 +774,7 @@ def runMoves (fx : Fix) (C : DS σ) (H : Nat) (s : State σ) (ms : List Move) : 
 def specMoves (l : List Nat) (ms : List Move) : List Nat := ms.foldl specMove l
 
 theorem moves_VS (hC : Lawful C VC WC) (hscore : ∀ {c l}, VC c l → VC (C.score c).2 l)
-    (hG : Inter.Ghost C g) (hg : ∀ c, (C.score c).1 = g c (C.doc c)) (G : Nat → Nat)
+    (hG : Inter.Ghost C g) (hg : ∀ {c l}, VC c l → l ≠ [] → (C.score c).1 = g c (C.doc c)) (G : Nat → Nat)
     {H : Nat} (hH : 64 ∣ H) (hH0 : 0 < H) (fx : Fix) :
     ∀ (ms : List Move) {s : State σ} {l : List Nat}, VS g G VC H s l → legalMoves l ms →
       VS g G VC H (runMoves fx C H s ms) (specMoves l ms) := by
@@ -796,7 +796,7 @@ theorem moves_VS (hC : Lawful C VC WC) (hscore : ∀ {c l}, VC c l → VC (C.sco
 the document the specification cursor sits on, and its score there is the sum of the score
 functions of the children containing that document -/
 theorem score_after_moves (hC : Lawful C VC WC) (hscore : ∀ {c l}, VC c l → VC (C.score c).2 l)
-    (hG : Inter.Ghost C g) (hg : ∀ c, (C.score c).1 = g c (C.doc c))
+    (hG : Inter.Ghost C g) (hg : ∀ {c l}, VC c l → l ≠ [] → (C.score c).1 = g c (C.doc c))
     {H : Nat} (hH : 64 ∣ H) (hH0 : 0 < H) (fx : Fix) {cs : List σ} {ls : List (List Nat)} {U : List Nat}
     (h : All2 VC cs ls) (hU : SimpleUnion.IsUnion U ls) (ms : List Move) (hl : legalMoves U ms) :
     (runMoves fx C H (build C H true cs) ms).doc = Spec.doc (specMoves U ms)
